@@ -80,7 +80,62 @@ func LoadEngine(repo string) (*Engine, error) {
 			e.byKey[k] = fn
 		}
 	}
+	// bodies that AllFunctions does not reach (generic methods never instantiated inside the module)
+	var addFn func(fn *ssa.Function)
+	addFn = func(fn *ssa.Function) {
+		if fn == nil || len(fn.Blocks) == 0 {
+			return
+		}
+		k := fnKey(fn)
+		if _, ok := e.byKey[k]; !ok {
+			e.byKey[k] = fn
+			e.allFuncs[fn] = true
+		}
+		for _, a := range fn.AnonFuncs {
+			addFn(a)
+		}
+	}
+	for _, sp := range spkgs {
+		if sp == nil || sp.Pkg == nil || !(sp.Pkg.Path() == e.ModPath || strings.HasPrefix(sp.Pkg.Path(), e.ModPath+"/")) {
+			continue
+		}
+		sc := sp.Pkg.Scope()
+		for _, n := range sc.Names() {
+			switch o := sc.Lookup(n).(type) {
+			case *types.Func:
+				addFn(prog.FuncValue(o))
+			case *types.TypeName:
+				if nt, ok := o.Type().(*types.Named); ok {
+					for i := 0; i < nt.NumMethods(); i++ {
+						addFn(prog.FuncValue(nt.Method(i)))
+					}
+				}
+			}
+		}
+	}
+	// short closure keys (pkg.Method$1) stay usable when they are unambiguous
+	alias := map[string][]*ssa.Function{}
+	for k, fn := range e.byKey {
+		if fn.Parent() != nil && strings.Contains(k, ").") {
+			short := k[:strings.Index(k, ".(")] + "." + fn.Name()
+			alias[short] = append(alias[short], fn)
+		}
+	}
 	e.Specs = LoadSpecs(repo, nil)
+	for short, fns := range alias {
+		sp := e.Specs.Funcs[short]
+		if sp == nil || e.byKey[short] != nil {
+			continue
+		}
+		if len(fns) == 1 {
+			k := fnKey(fns[0])
+			if e.Specs.Funcs[k] == nil {
+				delete(e.Specs.Funcs, short)
+				sp.Key = k
+				e.Specs.Funcs[k] = sp
+			}
+		}
+	}
 	e.preRegisterExterns()
 	e.analyzeAddressTaken()
 	e.analyzeGlobals()
